@@ -1,8 +1,8 @@
-(* Properties_C19.v — a browser keeps asking: periodic, follow-up and refresh questions (partial). *)
-From QV Require Import Base Fields SrcFacts Msg SrcDecisions Cache Sim Browser BrowserSpec BrowserProofs.
+(* Properties_C19.v — a browser keeps asking: periodic, follow-up and refresh questions. *)
+From QV Require Import Base Fields SrcFacts Msg SrcDecisions Cache Sim SimProofs Browser BrowserSpec BrowserProofs BrowserInv BrowserTimers.
 Local Open Scope Z_scope.
 
-(* PARTIAL (handler level).  The browse question: one PTR question for the browser's type, listing exactly the PTR
+(* Handler level (the run-level invariant follows below).  The browse question: one PTR question for the browser's type, listing exactly the PTR
    records the cache holds for that name, after which the 60 s timer (period read from browser.cpp) is re-armed; it is
    sent at creation and on every expiry of that timer.  A refresh warning makes the browser ask for that record's name
    and type.  That the questions are actually sent on time over whole histories (codes 70-74: period, follow-up for
@@ -23,3 +23,49 @@ Theorem C19_refresh_question_partial r :
   on_should_query r = [ESendAll (add_query (mkQuery (r_name r) (r_type r) false) default_message)].
 Proof. exact (should_query_spec r). Qed.
 Print Assumptions C19_refresh_question_partial.
+
+(* ---- run level: the periodic question ----
+   [kreach ... s g]: s is a state the virtual-time kernel reaches from the empty world by any messages, API calls
+   (creating any number of browsers and caches), clock advances and timers firing at or after their deadline; the ghost
+   g is None until browser j is created and then Some t, t being the instant of browser j's latest browse question.
+   [QInv j s (Some t)]: browser j exists, its question timer is in the timer table, every entry of that timer has the
+   deadline t + browse_period_ms, and t <= now.  So the next browse question is always due exactly one period after the
+   previous one (first one at creation), whatever else happens in between: no handler stops, loses or postpones it. *)
+Theorem C19_question_timer_always_armed j s g :
+  kreach world bapi (option Z) world_handle (qstep j) w0 None s g -> QInv j s g.
+Proof. exact (query_timer_invariant j s g). Qed.
+Print Assumptions C19_question_timer_always_armed.
+
+(* every script of the executable model ends in such a state *)
+Theorem C19_question_timer_runs j fuel ops :
+  exists g, QInv j (state_after world bapi world_handle fuel w0 ops) g.
+Proof. exact (query_timer_invariant_runs j fuel ops). Qed.
+Print Assumptions C19_question_timer_runs.
+
+(* and when that timer fires, the question goes out with the known answers and the timer is armed again *)
+Theorem C19_question_timer_fires j w b :
+  nth_error (w_browsers w) j = Some b ->
+  exists m, snd (world_handle 0 w (EvTimer (T_QUERY_OF j))) = [ESendAll m; EStart (T_QUERY_OF j) browse_period_ms] /\
+    m_response m = false /\ m_queries m = [mkQuery (b_type b) T_PTR false] /\
+    m_records m = lookup_view (b_type b) T_PTR (match nth_error (w_caches w) (b_cache b) with Some c => view_of c | None => [] end).
+Proof. exact (query_timer_fires j w b). Qed.
+Print Assumptions C19_question_timer_fires.
+
+(* a refresh warning reaches every browser attached to the cache; each asks for the record's name and type *)
+Theorem C19_refresh_warning_slots ci r v bs j0 :
+  slots_for ci (ShouldQuery r) v j0 bs =
+  (bs, concat (map (fun b => if Nat.eqb (b_cache b) ci then on_should_query r else []) bs)).
+Proof. exact (should_query_slots ci r v bs j0). Qed.
+Print Assumptions C19_refresh_warning_slots.
+
+(* non-vacuity: two browsers; after 125 s each has asked three times and the timers stand at 180 s *)
+Example C19_nonvacuous :
+  let ops := [AApi (BNewBrowser (Some [95; 116; 46]%N) None); AApi (BNewBrowser (Some [95; 117; 46]%N) (Some 0%nat)); AAdv 125000] in
+  let s := state_after world bapi world_handle 20 w0 ops in
+  s_tm s = [(T_QUERY_OF 0, 180000, 5%N); (T_QUERY_OF 1, 180000, 6%N)] /\ QInv 0 s (Some 120000) /\ QInv 1 s (Some 120000).
+Proof.
+  cbv zeta. split; [vm_compute; reflexivity|].
+  split; (split; [eexists; vm_compute; reflexivity|]; split; [eexists _, _; vm_compute; auto|]; split; [|vm_compute; discriminate]).
+  - intros d sq H. vm_compute in H. destruct H as [H|[H|[]]]; inversion H; reflexivity.
+  - intros d sq H. vm_compute in H. destruct H as [H|[H|[]]]; inversion H; reflexivity.
+Qed.
